@@ -121,6 +121,34 @@ Definition lp_horseshoe (s x : expr) : expr :=
   let ub := EMul K (ELog (EAdd e1 (EMul e2 A))) in
   ELog (EDiv (EAdd lb ub) e2).
 
+(* ---- LKJ priors (gpytorch/priors/lkj_prior.py; torch.distributions.LKJCholesky) ------------ *)
+Definition qn (k : nat) : Qc := Q2Qc (inject_Z (Z.of_nat k)).
+Definition e_sum (l : list expr) : expr := fold_right EAdd (EConst 0%Qc) l.
+(* torch.mvlgamma(a, p) = p(p-1)/4 ln pi + sum_{j=0}^{p-1} lgamma(a - j/2) *)
+Definition e_mvlgamma (a : expr) (p : nat) : expr :=
+  EAdd (EMul (EConst (qn (p * (p - 1)) / qc 4 1)%Qc) (ELog EPi))
+       (e_sum (map (fun j => ELgamma (ESub a (EConst (qn j / qc 2 1)%Qc))) (seq 0 p))).
+(* log of the normalising constant of LKJ(n, eta) (Lewandowski, Kurowicka, Joe 2009, p. 1999):
+   (n-1)/2 ln pi + mvlgamma(alpha - 1/2, n-1) - (n-1) lgamma(alpha),  alpha = eta + (n-1)/2 *)
+Definition e_lkj_lognorm (n : nat) (eta : expr) : expr :=
+  let dm1 := (n - 1)%nat in
+  let alpha := EAdd eta (EConst (qn dm1 / qc 2 1)%Qc) in
+  ESub (EAdd (EMul (EConst (qn dm1 / qc 2 1)%Qc) (ELog EPi)) (e_mvlgamma (ESub alpha e_half) dm1))
+       (EMul (EConst (qn dm1)) (ELgamma alpha)).
+(* density of the correlation MATRIX Sigma = L L^T, as documented for LKJPrior:
+   C |Sigma|^(eta-1), |Sigma| = prod_i L_ii^2.   [diag] = [L_11; ...; L_nn] *)
+Definition lp_lkj_corr (n : nat) (eta : expr) (diag : list expr) : expr :=
+  ESub (e_sum (map (fun d => EMul (EMul e2 (ESub eta e1)) (ELog d)) diag)) (e_lkj_lognorm n eta).
+(* the Jacobian of Sigma -> L: prod_{i>=2} L_ii^(n-i) *)
+Definition e_lkj_logjac (n : nat) (diag : list expr) : expr :=
+  e_sum (map (fun id => EMul (EConst (qn (n - fst id))) (ELog (snd id))) (tl (combine (seq 1 n) diag))).
+(* density of the Cholesky FACTOR (LKJCholeskyFactorPrior = torch LKJCholesky):
+   prod_{i>=2} L_ii^(2(eta-1) + n - i) / normaliser *)
+Definition lp_lkj_chol (n : nat) (eta : expr) (diag : list expr) : expr :=
+  ESub (e_sum (map (fun id => EMul (EAdd (EMul e2 (ESub eta e1)) (EConst (qn (n - fst id)))) (ELog (snd id)))
+                   (tl (combine (seq 1 n) diag))))
+       (e_lkj_lognorm n eta).
+
 (* ---- executable wrappers ------------------------------------------------------------------ *)
 Definition ser_list {A} (f : A -> list Z) (l : list A) : list Z := flat_map f l.
 
@@ -143,28 +171,59 @@ Inductive prior_cfg :=
 | PNormal (mu s : Qc) | PLogNormal (mu s : Qc) | PHalfNormal (s : Qc) | PGamma (a b : Qc)
 | PHalfCauchy (s : Qc) | PUniform (a b : Qc) | PSmoothedBox (a b s : Qc) | PHorseshoe (s : Qc).
 
-Definition lp_of (p : prior_cfg) (x : Qc) : expr :=
+Definition lp_of_e (p : prior_cfg) (x : expr) : expr :=
   let c := EConst in
   match p with
-  | PNormal mu s => lp_normal (c mu) (c s) (c x)
-  | PLogNormal mu s => lp_lognormal (c mu) (c s) (c x)
-  | PHalfNormal s => lp_halfnormal (c s) (c x)
-  | PGamma a b => lp_gamma (c a) (c b) (c x)
-  | PHalfCauchy s => lp_halfcauchy (c s) (c x)
+  | PNormal mu s => lp_normal (c mu) (c s) x
+  | PLogNormal mu s => lp_lognormal (c mu) (c s) x
+  | PHalfNormal s => lp_halfnormal (c s) x
+  | PGamma a b => lp_gamma (c a) (c b) x
+  | PHalfCauchy s => lp_halfcauchy (c s) x
   | PUniform a b => lp_uniform (c a) (c b)
-  | PSmoothedBox a b s => lp_smoothedbox (c a) (c b) (c s) (c x)
-  | PHorseshoe s => lp_horseshoe (c s) (c x)
+  | PSmoothedBox a b s => lp_smoothedbox (c a) (c b) (c s) x
+  | PHorseshoe s => lp_horseshoe (c s) x
+  end.
+Definition lp_of (p : prior_cfg) (x : Qc) : expr := lp_of_e p (EConst x).
+
+(* Prior(transform=t): log_prob(x) = base log density at t(x)  (gpytorch/priors/prior.py:27-35).
+   t: 0 identity, 1 log, 2 exp, 3 square *)
+Definition apply_tr (t : nat) (x : expr) : expr :=
+  match t with 1%nat => ELog x | 2%nat => EExp x | 3%nat => EMul x x | _ => x end.
+Definition run_prior_tr (c : prior_cfg * nat * list Qc) : list Z :=
+  let '(p, t, xs) := c in ser_list (fun x => ser_expr (lp_of_e p (apply_tr t (EConst x)))) xs.
+
+(* MultivariateNormalPrior: pdf(x) = det(2 pi Sigma)^-1/2 exp(-1/2 (x-mu)' Sigma^-1 (x-mu)).
+   case = (k, mu, Sigma rows, x); result 0 if Sigma is singular, else 1; expr of the log density:
+   -1/2 ( quad + ln det Sigma + k ln(2 pi) ) with the rational quadratic form and determinant *)
+Definition run_mvn (c : nat * list Qc * list (list Qc) * list Qc) : list Z :=
+  let '(k, mu, sg, x) := c in
+  let S : @M QcF := @of_list QcF sg in
+  let r : @M QcF := fun i _ => (nth i x 0%Qc - nth i mu 0%Qc)%Qc in
+  match inv_checked k S with
+  | Some Si =>
+      let quad := @mmul QcF k (@mT QcF r) (@mmul QcF k Si r) O O in
+      1%Z :: ser_expr (EMul (EConst (qc (-1) 2))
+                         (EAdd (EAdd (EConst quad) (ELog (EConst (det k S)))) (EMul (EConst (qn k)) e_ln2pi)))
+  | None => [0%Z]
   end.
 
 Definition run_prior (c : prior_cfg * list Qc) : list Z :=
   let '(p, xs) := c in ser_list (fun x => ser_expr (lp_of p x)) xs.
 
+(* LKJ: (n, eta, diagonal of the Cholesky factor) -> [density of the factor; density of the matrix] *)
+Definition run_lkj (c : nat * Qc * list Qc) : list Z :=
+  let '(n, eta, ds) := c in
+  ser_expr (lp_lkj_chol n (EConst eta) (map EConst ds)) ++ ser_expr (lp_lkj_corr n (EConst eta) (map EConst ds)).
+
 Inductive c17_case :=
 | KTransform (c : cons * list Qc) | KTransformE (c : cons * list expr) | KInverse (c : cons * list Qc)
-| KHistory (c : cons * Qc * list (op Qc expr)) | KPrior (c : prior_cfg * list Qc).
+| KHistory (c : cons * Qc * list (op Qc expr)) | KPrior (c : prior_cfg * list Qc)
+| KLKJ (c : nat * Qc * list Qc) | KPriorT (c : prior_cfg * nat * list Qc)
+| KMVN (c : nat * list Qc * list (list Qc) * list Qc).
 
 Definition run_c17 (k : c17_case) : list Z :=
   match k with
   | KTransform c => run_transform c | KTransformE c => run_transform_e c | KInverse c => run_inverse c
-  | KHistory c => run_history c | KPrior c => run_prior c
+  | KHistory c => run_history c | KPrior c => run_prior c | KLKJ c => run_lkj c
+  | KPriorT c => run_prior_tr c | KMVN c => run_mvn c
   end.
